@@ -30,6 +30,10 @@ pub fn fixture(name: &str) -> (&'static str, &'static str) {
         "expired-wrongname" => pem!("expired-wrongname"),
         "unknown" => pem!("unknown"),
         "unknown-wrongname" => pem!("unknown-wrongname"),
+        "viaint" => pem!("viaint"),
+        "viaint-wrongname" => pem!("viaint-wrongname"),
+        "clientonly" => pem!("clientonly"),
+        "cnonly" => pem!("cnonly"),
         "notyet" => pem!("notyet"),
         "notyet-wrongname" => pem!("notyet-wrongname"),
         "selfsigned" => pem!("selfsigned"),
